@@ -132,7 +132,9 @@ CHECKS = {
                 "parser program's execution — every refill iteration included — stays <= 4*chunk + W when all peek offsets are < W, with "
                 "the precondition re-established at the end (so it composes over any number of calls); for a whole DIMACS parse of an "
                 "input whose items span <= n bytes and whose lines are <= L long the buffer never exceeds 4c + n + L + 1, however long "
-                "the input. The link to real heap use (Vec capacity, allocator, the parsers' own per-item buffers) is measured: cnf and btor2 inputs generated on the "
+                "the input; likewise a whole BTOR2 parse and a whole solver-log parse, ASCII AIGER entry readers, and the binary and-gate "
+                "section (4c + 16 for any number of gates) (Buf2.v). The link to real heap use (Vec capacity, allocator, the parsers' "
+                "own per-item buffers) is measured: cnf and btor2 inputs generated on the "
                 "fly are streamed under a counting allocator and the peak live heap is compared with 8*chunk + 16*item + 64 KiB.",
         "design_ref": "DESIGN.md 2/C10",
         "note": "Trusted: as C02. Partial: Vec growth policy, shrink_to_fit and allocator overhead are runtime behaviour (measured); the "
@@ -168,9 +170,10 @@ CHECKS = {
                 "delivered the item's last line), for every chunk size; for any honest source a call whose requests were already "
                 "delivered does not touch the source. The same per-item theorems for BTOR2 next_line (incl. the keyword scanner's fast and "
                 "cold paths; a line with a comment leaves exactly its terminating LF requested but unconsumed) and for the ASCII AIGER "
-                "header and every section entry reader (LookW.v, Btor2Look.v, AigerLook.v). PARTIAL: binary AIGER and-gates and the "
-                "solver log per line by the one-line-per-read oracle and read-call counts against the model; the AIGER comment section "
-                "is by format the rest of the file.",
+                "header and every section entry reader (LookW.v, Btor2Look.v, AigerLook.v), for a binary AIGER and-gate (nothing beyond "
+                "its last byte; AigLook.v) and for the solver log (line by line; whole parse consumes the log and requests at most the "
+                "byte that discovers its end; LogLook.v). The AIGER comment section is by format the rest of the file. The "
+                "one-line-per-read oracle and read-call counts against the model run on all formats as well.",
         "design_ref": "DESIGN.md 2/C09",
         "note": "Trusted: as C02/C16.",
         "technique": "Coq proof (call-count invariant over histories; minimal look-ahead of scanners) + model/implementation "
@@ -251,9 +254,12 @@ CHECKS = {
                 "pa stream (every field of every line, the bytes write_into produces, the constants' validating constructors). DIMACS family "
                 "(Layout.v, LayoutProofs.v): the crate's writer as a function (header formats regenerated from the source) is the "
                 "plain-layout rendering, and every admissible/concrete parse of its output returns exactly the document, for every "
-                "document in the domain (strict header unless ignore_header; witness pinned). PARTIAL: the DIMACS writer function is tied "
-                "to the code by the translator and the rt oracle only; AIGER whole-document round trip is checked on the implementation "
-                "by the rt and expectation oracles (model in progress).",
+                "document in the domain (strict header unless ignore_header; witness pinned). AIGER (AigerWrite.v, AigerRt.v, RtAll.v): "
+                "write_aag / write_aig followed by the parser returns the circuit, every admissible and concrete run, incl. header "
+                "elision, latch reset forms, symbols, comment, M up to 2^63-1. The converse (Converse*.v): every text a parser accepts "
+                "yields a value in the format's domain, so writing it and parsing again gives the same value, for BTOR2, the DIMACS "
+                "family, ASCII and binary AIGER. All writer functions are tied to the code by the pa stream (bytes written by the crate "
+                "vs. by the function, flags x / w); the rt and expectation oracles run on the implementation as well.",
         "design_ref": "DESIGN.md 2/C03",
         "note": "Trusted: as C11/C13; translator for the BTOR2 table. Defect D9 (DecimalConst) was found by this check and fixed.",
         "technique": "Coq proof (number-level round trips) + translator-generated table + round-trip oracle",
